@@ -697,6 +697,10 @@ func hx(ss []string) []string {
 
 // worstClass picks the class to name in the signature for a key whose values did not arrive.
 func worstClass(vals, cls []string, got []string, repeated bool) string {
+	if repeated && len(got) < len(vals) {
+		// values of a repeated key were lost: the repetition is the class, whatever the bytes
+		return "repeated-key"
+	}
 	// the class of the first expected value that is not among the received ones
 	left := append([]string(nil), got...)
 	for i, v := range vals {
